@@ -252,6 +252,11 @@ func (a *Act) unop(st *State, x *ssa.UnOp) Val {
 	g := a.vc.g
 	switch x.Op {
 	case token.MUL:
+		if gl, isG := x.X.(*ssa.Global); isG {
+			if r, ok := a.constGlobalVal(gl); ok {
+				return r
+			}
+		}
 		r := a.load(st, v, x.Pos())
 		r.T = x.Type()
 		if r.S != "" && !isAtom(r.S) {
@@ -272,6 +277,33 @@ func (a *Act) unop(st *State, x *ssa.UnOp) Val {
 	a.vc.unsupported("unop %s", x.Op)
 	_ = g
 	return a.freshVal("unop", x.Type())
+}
+
+// constGlobalVal returns the constant modelling an init-only package variable.
+func (a *Act) constGlobalVal(gl *ssa.Global) (Val, bool) {
+	name, nonNil, ok := a.eng.constGlobal(gl)
+	if !ok {
+		return Val{}, false
+	}
+	t := deref(gl.Type())
+	srt := a.vc.g.sortOf(t)
+	if a.vc.g.structInfoOf(t) != nil {
+		return Val{}, false
+	}
+	a.vc.g.decl("const "+name, fmt.Sprintf("(declare-const %s %s)", name, srt))
+	a.vc.assumeOnce(a.vc.g.rangeFact(t, name))
+	if nonNil && srt == sIface {
+		a.vc.assumeOnce("(> (itag " + name + ") 0)")
+		// distinct error values are distinct pointers
+		for _, other := range a.eng.cglobNames {
+			if other != name {
+				a.vc.g.decl("const "+other, fmt.Sprintf("(declare-const %s %s)", other, sIface))
+				a.vc.assumeOnce(not(eq(name, other)))
+			}
+		}
+		a.eng.cglobNames = appendUnique(a.eng.cglobNames, name)
+	}
+	return Val{S: name, Sort: srt, T: t}, true
 }
 
 // wrapInt reduces a mathematical integer term into the range of its Go type (two's complement wrap).
@@ -666,11 +698,17 @@ func (a *Act) mapHeaps(st *State, mt *types.Map) (dk, ds, vk, vs string, ks, vso
 	g := a.vc.g
 	ks = g.sortOf(mt.Key())
 	vsort = g.sortOf(mt.Elem())
-	dk = "MD:" + ks
+	dk = "MD:" + ks + ":" + vsort
 	ds = "(Array Int (Array " + ks + " Bool))"
 	vk = "MV:" + ks + ":" + vsort
 	vs = "(Array Int (Array " + ks + " " + vsort + "))"
 	return
+}
+
+// mlKey is the length heap of maps of type mt (one heap per map type, so maps of different types never alias).
+func (a *Act) mlKey(mt *types.Map) string {
+	g := a.vc.g
+	return "ML:" + g.sortOf(mt.Key()) + ":" + g.sortOf(mt.Elem())
 }
 
 func (a *Act) lookup(st *State, x *ssa.Lookup) Val {
@@ -731,14 +769,14 @@ func (a *Act) mapUpdate(st *State, m, k, v Val, pos token.Pos) {
 	dk, ds, vk, vs, _, _ := a.mapHeaps(st, mt)
 	D := vc.getHeap(st, dk, ds)
 	V := vc.getHeap(st, vk, vs)
-	L := vc.getHeap(st, "ML", "(Array Int Int)")
+	L := vc.getHeap(st, a.mlKey(mt), "(Array Int Int)")
 	had := sel(sel(D, m.S), k.S)
-	vc.setHeap(st, "ML", "(Array Int Int)", store(L, m.S, ite(had, sel(L, m.S), "(+ 1 "+sel(L, m.S)+")")))
+	vc.setHeap(st, a.mlKey(mt), "(Array Int Int)", store(L, m.S, ite(had, sel(L, m.S), "(+ 1 "+sel(L, m.S)+")")))
 	vc.setHeap(st, dk, ds, store(D, m.S, store(sel(D, m.S), k.S, "true")))
 	vc.setHeap(st, vk, vs, store(V, m.S, store(sel(V, m.S), k.S, v.S)))
 	a.logHeapAt(dk, m.S)
 	a.logHeapAt(vk, m.S)
-	a.logHeapAt("ML", m.S)
+	a.logHeapAt(a.mlKey(mt), m.S)
 }
 
 func (a *Act) mapDelete(st *State, m, k Val) {
@@ -748,12 +786,12 @@ func (a *Act) mapDelete(st *State, m, k Val) {
 	k = a.convKey(st, k, mt.Key())
 	dk, ds, _, _, _, _ := a.mapHeaps(st, mt)
 	D := vc.getHeap(st, dk, ds)
-	L := vc.getHeap(st, "ML", "(Array Int Int)")
+	L := vc.getHeap(st, a.mlKey(mt), "(Array Int Int)")
 	had := and(not(eq(m.S, "0")), sel(sel(D, m.S), k.S))
-	vc.setHeap(st, "ML", "(Array Int Int)", store(L, m.S, ite(had, "(- "+sel(L, m.S)+" 1)", sel(L, m.S))))
+	vc.setHeap(st, a.mlKey(mt), "(Array Int Int)", store(L, m.S, ite(had, "(- "+sel(L, m.S)+" 1)", sel(L, m.S))))
 	vc.setHeap(st, dk, ds, store(D, m.S, store(sel(D, m.S), k.S, "false")))
 	a.logHeapAt(dk, m.S)
-	a.logHeapAt("ML", m.S)
+	a.logHeapAt(a.mlKey(mt), m.S)
 }
 
 func (a *Act) mapClear(st *State, m Val) {
@@ -761,11 +799,11 @@ func (a *Act) mapClear(st *State, m Val) {
 	mt := m.T.Underlying().(*types.Map)
 	dk, ds, _, _, ks, _ := a.mapHeaps(st, mt)
 	D := vc.getHeap(st, dk, ds)
-	L := vc.getHeap(st, "ML", "(Array Int Int)")
-	vc.setHeap(st, "ML", "(Array Int Int)", store(L, m.S, "0"))
+	L := vc.getHeap(st, a.mlKey(mt), "(Array Int Int)")
+	vc.setHeap(st, a.mlKey(mt), "(Array Int Int)", store(L, m.S, "0"))
 	vc.setHeap(st, dk, ds, store(D, m.S, fmt.Sprintf("((as const (Array %s Bool)) false)", ks)))
 	a.logHeapAt(dk, m.S)
-	a.logHeapAt("ML", m.S)
+	a.logHeapAt(a.mlKey(mt), m.S)
 }
 
 func (a *Act) makeMap(st *State, t types.Type) Val {
@@ -774,7 +812,7 @@ func (a *Act) makeMap(st *State, t types.Type) Val {
 	addr := a.alloc(st, "map")
 	dk, ds, _, _, ks, _ := a.mapHeaps(st, mt)
 	D := vc.getHeap(st, dk, ds)
-	L := vc.getHeap(st, "ML", "(Array Int Int)")
+	L := vc.getHeap(st, a.mlKey(mt), "(Array Int Int)")
 	// a fresh map is empty in the current heap (no new heap version needed: the address is fresh)
 	vc.assume("true", eq(sel(D, addr), fmt.Sprintf("((as const (Array %s Bool)) false)", ks)))
 	vc.assume("true", eq(sel(L, addr), "0"))
@@ -782,7 +820,8 @@ func (a *Act) makeMap(st *State, t types.Type) Val {
 }
 
 func (a *Act) mapLen(st *State, m Val) string {
-	L := a.vc.getHeap(st, "ML", "(Array Int Int)")
+	mt := m.T.Underlying().(*types.Map)
+	L := a.vc.getHeap(st, a.mlKey(mt), "(Array Int Int)")
 	r := ite(eq(m.S, "0"), "0", sel(L, m.S))
 	a.vc.assume("true", "(>= "+sel(L, m.S)+" 0)")
 	return r
